@@ -278,13 +278,79 @@ def check_a(P, stmts, acc, origin):
     return found
 
 
+def level_free_canon(dump):
+    """Canonical form of the compiled automaton's language with every `||` index erased (the same item in two
+    branches becomes one symbol; its continuations are united by the subset construction)."""
+    def z(flat):
+        f = dict(flat)
+        f['inputs'] = [dict(i, fb=0) if 'fb' in i else i for i in flat['inputs']]
+        return f
+    return refsem.dump_canon({'main': z(dump['main']), 'subs': {k: z(v) for k, v in dump['subs'].items()}})
+
+
+def definition_under_fallback_grammar(r):
+    """Definitions whose only reference to another definition sits below `||`, `[]`, `...` or inside a word."""
+    inner = alt(lit('low'), lit('high')) if r.random() < 0.6 else seq(lit('lv'), opt(lit('x')))
+    k = r.random()
+    ref = nt('LEVEL')
+    if k < 0.4:
+        body = fb(ref, lit('custom'))
+    elif k < 0.55:
+        body = fb(lit('custom'), ref)
+    elif k < 0.7:
+        body = fb(lit('custom'), seq(lit('lvl'), ref), lit('zz'))
+    elif k < 0.8:
+        body = seq(lit('m'), opt(fb(ref, lit('custom'))))
+    elif k < 0.9:
+        body = many(fb(lit('custom'), ref))
+    else:
+        body = fb(('word', (lit('l='), ref)), lit('custom')) if inner[0] == 'alt' else fb(ref, lit('custom'))
+    stmts = [call('cmd', seq(nt('MODE'), lit('end'))), defn('MODE', None, body), defn('LEVEL', None, inner)]
+    if r.random() < 0.4:
+        stmts[0] = call('cmd', fb(seq(lit('go'), nt('MODE')), lit('stop')))
+    if r.random() < 0.3:
+        stmts.insert(1, defn('OUTER', None, nt('MODE')))
+        stmts[0] = call('cmd', seq(nt('OUTER'), lit('end')))
+    r.shuffle(stmts)
+    return stmts
+
+
+def check_c(P, stmts, acc, origin):
+    """`||` is transparent to matching, decided on the compiled automata: the language of the grammar with every
+    `||` index erased equals the language of the grammar in which `||` is spelt `|`."""
+    g2 = alt_variant(stmts)
+    t1, _, _ = gast.print_grammar(stmts)
+    t2, _, _ = gast.print_grammar(g2)
+    if t1 == t2:
+        return
+    a1 = P.ask('g', 'bash', 'dfa', t1)
+    a2 = P.ask('h', 'bash', 'dfa', t2)
+    acc.evals += 1
+    if a1.get('stage') != 'done' or a2.get('stage') != 'done':
+        acc.count('c_variant_not_accepted')
+        return
+    acc.count('c_pairs_compared')
+    acc.seen(('c', t1))
+    c1 = level_free_canon(a1['dfa_min'])
+    c2 = level_free_canon(a2['dfa_min'])
+    if c1 != c2:
+        w = A.distinguish(A.dfa_from_canon(c1), A.dfa_from_canon(c2))
+        acc.violation({'sig': 'fallback-changes-what-is-matched', 'part': 'c', 'grammar': t1, 'variant': t2,
+                       'shell': 'bash', 'what': 'the compiled automaton of the || grammar (levels erased) and that of '
+                       'the | grammar accept different word sequences',
+                       'witness': [str(x)[:80] for x in (w[0] if w else [])] if w else None,
+                       'accepted_by': (w[1] if w else None), 'stmts': stmts, 'origin': origin})
+
+
 def run_job(job, acc):
     r = random.Random(job[1])
     if job[0] == 'a':
         P = probe.Probe()
         try:
             for i in range(job[2]):
-                check_a(P, biased_grammar(r), acc, 'a seed=%d #%d' % (job[1], i))
+                g = definition_under_fallback_grammar(r) if i % 8 == 7 else biased_grammar(r)
+                check_a(P, g, acc, 'a seed=%d #%d' % (job[1], i))
+                check_c(P, g, acc, 'c seed=%d #%d' % (job[1], i))
         finally:
             P.close()
         return
@@ -386,6 +452,13 @@ def replay(w, acc):
                     acc.violation({'sig': sig, 'witness': detail})
     finally:
         P.close()
+    if w.get('part') == 'c':
+        from .c02 import tuplify
+        P = probe.Probe()
+        try:
+            check_c(P, [tuplify(x) for x in w['stmts']], acc, 'replay')
+        finally:
+            P.close()
     if w.get('part') == 'b':
         rc1, out1, _ = comp.compile_text(w['grammar'], 'bash')
         rc2, out2, _ = comp.compile_text(w['variant'], 'bash')
